@@ -181,6 +181,15 @@ pub fn drive_sign(t: &mut Tracer, tier: &str, seed: u64, plan: Option<String>) {
             }
         }
     }
+    // the master secret EQUALS the identity hash (ks = H1(ID || 01)): P = [h1]P2 + Ppub-s is a DOUBLING in G2 -- the only way the
+    // protocol reaches the equal-operands branch of the group addition
+    for idv in [b"Alice".to_vec(), rng.bytes(9)] {
+        let h1 = ub(&gm_sm9::key::verif_hash1(&idv, 1));
+        let c = sign_ctx(&h1);
+        if let Some((h, s, r)) = sign_event(t, &sess(), &c, &idv, None, b"master secret equals H1", vec![]) {
+            verify_event(t, &sess(), &c, &c.msk.ppubs, false, &idv, None, b"master secret equals H1", &ub(&h), &s, Some(&r), "none");
+        }
+    }
     // spec-made signatures from the TLC plan: the library must accept them
     for v in read_plan(&plan) {
         if v["kind"] == "specsig" && v["ok"] == "ok" {
@@ -263,6 +272,13 @@ pub fn drive_encrypt(t: &mut Tracer, tier: &str, seed: u64, plan: Option<String>
             decrypt_event(t, &sess(), &annex, b"Bob", b"Bob", &ct, Some(&r), "none");
         }
     }
+    // ke = H1(ID || 03): Q = [h1]P1 + Ppub-e is a doubling in G1
+    for idv in [b"Bob".to_vec(), rng.bytes(7)] {
+        let c = enc_ctx(&ub(&gm_sm9::key::verif_hash1(&idv, 3)));
+        if let Some((ct, r)) = encrypt_event(t, &sess(), &c, &idv, None, b"master secret equals H1", vec![]) {
+            decrypt_event(t, &sess(), &c, &idv, &idv, &ct, Some(&r), "none");
+        }
+    }
     // every message length 1..=255 (quick: boundary subset)
     let lens: Vec<usize> = if thorough { (1..=255).collect() } else { vec![1, 2, 31, 32, 33, 64, 100, 223, 224, 254, 255] };
     let g = Gen::new("mix", rng.below(1 << 20));
@@ -293,6 +309,14 @@ pub fn drive_encrypt(t: &mut Tracer, tier: &str, seed: u64, plan: Option<String>
             decrypt_event(t, &sess(), c, id, id, &c2, None, region);
         }
         for len in 0..ct.len() { if thorough || len % 9 == 0 || len >= 95 { decrypt_event(t, &sess(), c, id, id, &ct[..len], None, "truncated"); } }
+        // alterations of C3 that keep its XOR / byte sum: byte swap, the same bit flipped in two bytes
+        for rep in 0..(if thorough { 16 } else { 4 }) {
+            let mut c2 = ct.clone();
+            let (i, mut j) = (rng.below(32) as usize, rng.below(32) as usize);
+            if rep % 2 == 0 { while c2[65 + j] == c2[65 + i] { j = (j + 1) % 32; if j == i { break; } } c2.swap(65 + i, 65 + j); }
+            else { if j == i { j = (i + 1) % 32; } let b = 1u8 << rng.below(8); c2[65 + i] ^= b; c2[65 + j] ^= b; }
+            if &c2 != ct { decrypt_event(t, &sess(), c, id, id, &c2, None, "fold-c3"); }
+        }
         let mut off = ct.clone(); for b in off[1..65].iter_mut() { *b = rng.next() as u8; } off[1] &= 0x3f;
         decrypt_event(t, &sess(), c, id, id, &off, None, "c1-offcurve");
         let mut big = ct.clone(); for b in big[1..33].iter_mut() { *b = 0xff; }
@@ -380,6 +404,12 @@ pub fn drive_kex(t: &mut Tracer, tier: &str, seed: u64) {
         let (ra, rb) = (b32(&sparse_scalar(&mut rng, w % 2)), b32(&sparse_scalar(&mut rng, (w + 1) % 2)));
         run(t, sess(), &ke, b"alice", b"bob", 24, vec![ra], vec![rb], "none", "none", &mut rng);
     }
+    // ke = H1(ID || 02) for one of the two identities: Q_B (resp. Q_A) = [h1]P1 + Ppub-e is a doubling in G1
+    for which in 0..2 {
+        let (ida, idb) = (b"Alice".to_vec(), b"Bob".to_vec());
+        let ke = ub(&gm_sm9::key::verif_hash1(if which == 0 { &idb } else { &ida }, 2));
+        run(t, sess(), &ke, &ida, &idb, 32, vec![], vec![], "none", "none", &mut rng);
+    }
     // honest runs, klen 1..=128
     let klens: Vec<usize> = if thorough { (1..=128).collect() } else { vec![1, 16, 32, 33, 100, 128] };
     for (i, klen) in klens.iter().enumerate() {
@@ -418,6 +448,19 @@ pub fn drive_pairing(t: &mut Tracer, tier: &str, seed: u64) {
         let o = guard_plain(|| verif::pairing(&q, &p));
         let out = o.ok().cloned().unwrap_or_default();
         t.emit(&sess(), "sm9.pairing", json!({"prop": "C12", "p": g1_json(&p), "q": g2_json(&q), "cls": cls, "out": bytes(&out), "outcome": o.name(), "detail": o.detail()}));
+    }
+    // the identity of G1 as first argument, obtained in three ways ((1,1,0) by construction, [N]P1, P - P): e(O, Q) = 1 for every Q
+    {
+        let p1 = Point::g_mul(&[1, 0, 0, 0]);
+        let pk = Point::g_mul(&u(&scalar(&mut rng)));
+        let zeros: Vec<Point> = vec![Point::zero(), p1.point_mul(&u(&nhex)), pk.point_sub(&pk), pk.point_add(&pk.point_neg())];
+        for (i, z) in zeros.iter().enumerate() {
+            let q = if i % 2 == 0 { TwistPoint::g_mul(&[1, 0, 0, 0]) } else { TwistPoint::g_mul(&u(&scalar(&mut rng))) };
+            let zz = *z;
+            let o = guard_plain(|| verif::pairing(&q, &zz));
+            let out = o.ok().cloned().unwrap_or_default();
+            t.emit(&sess(), "sm9.pairing", json!({"prop": "C12", "p": g1_json(z), "q": g2_json(&q), "cls": "identity-g1", "out": bytes(&out), "outcome": o.name(), "detail": o.detail()}));
+        }
     }
     // bilinearity / order identities evaluated by the library, judged by the specification with G0^(ab)
     let nid = if thorough { 400 } else { 24 };
@@ -535,7 +578,7 @@ pub fn drive_arith(t: &mut Tracer, tier: &str, seed: u64) {
             t.emit(&s, "g1.op", json!({"prop": "C13", "f": f, "cls": cls, "p": g1_json(p), "q": g1_json(q), "k": bytes(k), "eq": if o.ok() == Some(&true) { 1 } else { 0 }, "out": g1_json(&Point::zero()), "outcome": o.name(), "detail": o.detail()}));
             return;
         }
-        let o = guard_plain(move || match f { "add" => p2.point_add(&q2), "sub" => p2.point_sub(&q2), "dbl" => p2.point_double(), "neg" => p2.point_neg(), "mul" => p2.point_mul(&ku), _ => Point::g_mul(&ku) });
+        let o = guard_plain(move || match f { "add" => p2.point_add(&q2), "sub" => p2.point_sub(&q2), "dbl" => p2.point_double(), "neg" => p2.point_neg(), "mul" => p2.point_mul(&ku), "affine" => p2.to_affine_point(), _ => Point::g_mul(&ku) });
         t.emit(&s, "g1.op", json!({"prop": "C13", "f": f, "cls": cls, "p": g1_json(p), "q": g1_json(q), "k": bytes(k), "eq": 0, "out": g1_json(o.ok().unwrap_or(&Point::zero())), "outcome": o.name(), "detail": o.detail()}));
     };
     let g2op = |t: &mut Tracer, s: String, f: &'static str, p: &TwistPoint, q: &TwistPoint, k: &[u8], cls: &str| {
@@ -568,6 +611,21 @@ pub fn drive_arith(t: &mut Tracer, tier: &str, seed: u64) {
         for (j, s) in scalars.iter().enumerate() {
             if thorough || (i + j) % 2 == 0 { g1op(t, sess(), "mul", if j % 2 == 0 { &pa } else { &pj }, &pa, s, "scalar"); }
             if i == 0 { g1op(t, sess(), "gmul", &g1, &g1, s, "scalar"); }
+        }
+        // representations with SPECIAL stored Z limbs (the plain integer 1 instead of the Montgomery one, 2, single-limb values): any
+        // shortcut keyed on the representation of Z must not misfire
+        if i == 0 {
+            use gm_sm9::fields::fp::mont_mul;
+            for zl in [[1u64, 0, 0, 0], [2, 0, 0, 0], [0, 1, 0, 0], [0, 0, 0, 1], [u64::MAX, 0, 0, 0]] {
+                let (l2, l3) = (mont_mul(&zl, &zl), mont_mul(&mont_mul(&zl, &zl), &zl));
+                let ps = Point { x: mont_mul(&pa.x, &l2), y: mont_mul(&pa.y, &l3), z: mont_mul(&pa.z, &zl) };
+                for (a, b, cls) in [(ps, pa, "specialz-affine"), (pa, ps, "affine-specialz"), (ps, pj, "specialz-jac"), (ps, ps.point_neg(), "specialz-specialz"), (ps, qj, "specialz-jac")] {
+                    for f in ["add", "sub", "equals"] { g1op(t, sess(), f, &a, &b, &zero32, cls); }
+                }
+                g1op(t, sess(), "dbl", &ps, &ps, &zero32, "unary-specialz"); g1op(t, sess(), "neg", &ps, &ps, &zero32, "unary-specialz");
+                g1op(t, sess(), "affine", &ps, &ps, &zero32, "unary-specialz");
+                g1op(t, sess(), "mul", &ps, &ps, &scalars[1 % scalars.len()], "scalar-specialz");
+            }
         }
         // G2
         let tj = TwistPoint::g_mul(&u(&k));
